@@ -742,6 +742,9 @@ pub fn run_c15(report: &mut Report) {
         // first something that is skipped with a warning (a range operator that does not apply to the IPv4 routes),
         // then a hard failure
         ("skipped-item-then-unknown-as-set", "AS65001^33-40 OR AS-GONE".into(), Plan::default()),
+        // filter-sets the IRR knows but that have no usable filter
+        ("filter-set-without-filter-attribute", "FLTR-NOFILTER".into(), Plan::default()),
+        ("filter-set-with-unparsable-filter", "AS-A AND FLTR-BADFILTER".into(), Plan::default()),
         // registry data that can never be evaluated: filter-sets that refer to themselves / to each other
         ("filter-set-referring-to-itself", "FLTR-LOOP".into(), Plan::default()),
         ("filter-sets-referring-to-each-other", "AS-A AND FLTR-P".into(), Plan::default()),
@@ -755,14 +758,19 @@ pub fn run_c15(report: &mut Report) {
     _ = model.db.filter_sets.insert("FLTR-P".into(), vec!["FLTR-Q OR AS65001".into()]);
     _ = model.db.filter_sets.insert("FLTR-Q".into(), vec!["{ 192.0.2.0/24 } AND FLTR-P".into()]);
     let bad: Vec<(&str, String, Plan)> = candidates_bad.into_iter().filter(|(_, e, _)| parseable(e)).collect();
-    let good: Vec<(&str, Ex)> = vec![("good-a", Ex::AsSet("AS-A".into())), ("good-b", Ex::AutNum("AS65003".into())), ("good-c", Ex::RouteSet("RS-X".into()))];
+    // good-b goes through filter-set objects with non-ASCII text (the agent runs with DEBUG logging)
+    let good: Vec<(&str, Ex)> = vec![("good-a", Ex::AsSet("AS-A".into())), ("good-b", Ex::Or(Box::new(Ex::FilterSet("FLTR-U1".into())), Box::new(Ex::FilterSet("FLTR-U2".into())))), ("good-c", Ex::RouteSet("RS-X".into()))];
     let mut scenarios: Vec<(String, Vec<(String, String)>, Vec<usize>, Plan)> = Vec::new(); // (kind, [(name, expr)], indices of bad, plan)
     for (kind, expr, plan) in &bad {
         // one bad among two good; bad alone with one good; two bad (same kind) with one good
         scenarios.push(((*kind).to_string(), vec![("good-a".into(), good[0].1.render()), ("bad".into(), expr.clone()), ("good-b".into(), good[1].1.render())], vec![1], plan.clone()));
         scenarios.push(((*kind).to_string(), vec![("bad".into(), expr.clone()), ("good-c".into(), good[2].1.render())], vec![0], plan.clone()));
-        if thorough {
+        // a majority of unevaluable policies: 2 of 3 (every kind in the thorough tier, three kinds otherwise), 3 of 4
+        if thorough || ["unknown-as-set", "PeerAS", "unknown-route-set"].contains(kind) {
             scenarios.push(((*kind).to_string(), vec![("bad".into(), expr.clone()), ("good-a".into(), good[0].1.render()), ("bad2".into(), expr.clone())], vec![0, 2], plan.clone()));
+        }
+        if *kind == "unknown-as-set" || (thorough && *kind == "as-path-regex") {
+            scenarios.push(((*kind).to_string(), vec![("bad".into(), expr.clone()), ("bad2".into(), expr.clone()), ("good-c".into(), good[2].1.render()), ("bad3".into(), expr.clone())], vec![0, 1, 3], plan.clone()));
         }
     }
     let repeats = if thorough { 24 } else { 8 };
@@ -846,6 +854,21 @@ pub fn run_c15(report: &mut Report) {
     if let Some(o) = outs.first() {
         if let Some(rec) = o.recs.first() {
             report.sample(json!({"unevaluable_kind": o.kind, "policies": o.pols, "requests_seen": rec.rpcs, "exit_status": rec.exit}));
+        }
+    }
+    // a large configuration: 70 managed policies that all name filter-sets, one of them unevaluable; every other one
+    // must be installed (per-run state inside the evaluator - budgets, counters - shows only with many policies)
+    {
+        let irrd = Irrd::start(model.db.clone());
+        let mut pols: Vec<(String, String)> = (0..70).map(|i| (format!("many-{i:02}"), ["FLTR-F", "FLTR-G", "FLTR-H", "(FLTR-C OR FLTR-G)"][i % 4].to_string())).collect();
+        pols.push(("many-bad".into(), "AS-GONE".into()));
+        let running: Vec<RunningStmt> = pols.iter().map(|(n, e)| managed_stmt(n, e)).collect();
+        let scn = Scenario { instance_name: None, running, ephemeral: Instance::default(), fault: None, expected_loads: 70, irr_plan: Plan::default() };
+        let rec = run_agent(&scn, &irrd, "C15-many");
+        runs += 1;
+        let missing: Vec<&String> = pols.iter().filter(|(n, _)| n != "many-bad" && !rec.ephemeral_after.policies.contains_key(n)).map(|(n, _)| n).collect();
+        if rec.exit != Some(0) || !missing.is_empty() || rec.ephemeral_after.policies.contains_key("many-bad") {
+            report.violation("C15:other-policy-not-updated:large-configuration", &format!("70 evaluable policies naming filter-sets plus one unevaluable policy: exit {:?}, {} evaluable policies were not installed (e.g. {:?})", rec.exit, missing.len(), missing.iter().take(3).collect::<Vec<_>>()), json!({"policies": pols.len(), "not_installed": missing, "exit_status": rec.exit, "agent_log_tail": rec.stderr_tail}));
         }
     }
     // the evaluation stage in isolation (fast path, same kinds)
